@@ -34,4 +34,6 @@ CONTROLS += [
     dict(name="module-level flat dict passed to a helper that updates it in place (seed C16_c shape)",
          edits=[("cdd/shared/pure_utils.py", "def update_d(d, arg=None, **kwargs):\n", "_DEFAULTS = {\"a\": 1}\n\n\ndef _with_defaults(**kw):\n    return update_d(_DEFAULTS, **kw)\n\n\ndef update_d(d, arg=None, **kwargs):\n")],
          expect=r"state.shared-mutable-template@cdd.shared.pure_utils:_with_defaults"),
+    dict(name="BENIGN: infer_imports sorts the imported names in two steps (list(S) then .sort())", benign=True,
+         edits=[("cdd/shared/ast_utils.py", "def infer_imports(module, modules_to_all=DEFAULT_MODULES_TO_ALL):", "def _sorted_names(names):\n    out = list(frozenset(names))\n    out.sort()\n    return out\n\n\ndef infer_imports(module, modules_to_all=DEFAULT_MODULES_TO_ALL):")]),
 ]
